@@ -1,4 +1,5 @@
 import Proofs.Check
+import Proofs.Query
 import Gen.CheckCond
 
 /-!
@@ -147,5 +148,74 @@ def w0 : World :=
     kindOf := fun x => if x < 2 then 0 else 1, count := 4 }
 example : checkAssoc w0 none = 1 ∧ checkAssoc w0 (some "R9") = 0 ∧ checkUniq w0 (some 0) = 1 ∧ checkUniq w0 (some 1) = 1 ∧
     isConsistent w0 = false ∧ exitStatus w0 [] [] = 1 := by decide
+
+/-- `check_subtype_integrity(m, super_kind, rel)`: when no navigation raises (every link key of the supertype class
+    with the rel id can be navigated from every pool instance), the count is exactly the number of instances of
+    the class for which EVERY link key with that rel id has an empty partner list — the model's `navSubtype`
+    (C09 `nav_subtype_spec`: first key that yields an instance, else nothing) says "nothing" for exactly those -/
+theorem subtype_count (w : World) (k : Kind) (rel : String) (hkind : ∀ x ∈ w.pool k, w.kindOf x = k)
+    (hnav : ∀ x ∈ w.pool k, ∀ e ∈ Pyx.Query.linkDict w.sch k, e.rel = rel →
+      ∃ l, Pyx.Query.navigate w.sch w.toState x e.toKind rel "" = some l) :
+    checkSubtype w k rel = (w.pool k).countP (fun x => noSubtype w.sch w.toState x rel (Pyx.Query.linkDict w.sch k)) := by
+  unfold checkSubtype
+  apply countP_congr'
+  intro x hx
+  have hk : w.toState.kindOf x = k := hkind x hx
+  unfold Pyx.Query.navSubtype
+  rw [hk]
+  exact navSubtypeFrom_nothing_iff w.sch w.toState x rel _ (hnav x hx)
+
+/-- in terms of the links themselves: when the link keys of the supertype class are pairwise distinct and its
+    links with the rel id carry the empty phrase (as subtype associations do), no navigation raises, and the count
+    is the number of instances that have no partner over ANY of the class's links with that rel id -/
+theorem subtype_count_links (w : World) (k : Kind) (rel : String) (hkind : ∀ x ∈ w.pool k, w.kindOf x = k)
+    (hd : Pyx.Query.KeysDistinct (Pyx.Query.linkEntriesFrom k 0 w.sch))
+    (hph : ∀ e ∈ Pyx.Query.linkEntriesFrom k 0 w.sch, e.rel = rel → e.phrase = "") :
+    checkSubtype w k rel = (w.pool k).countP (fun x =>
+      (Pyx.Query.linkEntriesFrom k 0 w.sch).all (fun e => !(e.rel == rel) || (Pyx.Query.followEntry w.toState e x).isEmpty)) := by
+  have hdict := Pyx.Query.linkDict_distinct w.sch k hd
+  have hnavE : ∀ x ∈ w.pool k, ∀ e ∈ Pyx.Query.linkEntriesFrom k 0 w.sch, e.rel = rel →
+      Pyx.Query.navigate w.sch w.toState x e.toKind rel "" = some (Pyx.Query.followEntry w.toState e x) := by
+    intro x hx e he hr
+    apply Pyx.Query.navigate_direct'
+    have hk : w.toState.kindOf x = k := hkind x hx
+    rw [hk, hdict]
+    have := Pyx.Query.lookupKey_of_mem _ e hd he
+    rw [hr, hph e he hr] at this
+    exact this
+  rw [subtype_count w k rel hkind (by
+    intro x hx e he hr
+    rw [hdict] at he
+    exact ⟨_, hnavE x hx e he hr⟩)]
+  apply countP_congr'
+  intro x hx
+  unfold noSubtype
+  rw [hdict]
+  apply all_congr_mem
+  intro e he
+  by_cases hr : e.rel = rel
+  · simp only [hr, beq_self_eq_true, Bool.not_true, Bool.false_or, keyEmpty]
+    rw [hnavE x hx e he hr]
+  · have hb : (e.rel == rel) = false := by simpa using hr
+    simp [hb]
+
+/-! non-vacuity: supertype class 0 with subtypes 1 and 2 over R3; instance 0 has a subtype of class 2, instance 1 none -/
+def wSub : World :=
+  { sch := [{ rel := "R3", srcKind := 1, srcKeys := ["Id"], srcMany := false, srcCond := true, srcPhrase := "",
+              tgtKind := 0, tgtKeys := ["Id"], tgtMany := false, tgtCond := true, tgtPhrase := "" },
+            { rel := "R3", srcKind := 2, srcKeys := ["Id"], srcMany := false, srcCond := true, srcPhrase := "",
+              tgtKind := 0, tgtKeys := ["Id"], tgtMany := false, tgtCond := true, tgtPhrase := "" }],
+    classes := [],
+    pool := fun k => if k = 0 then [0, 1] else if k = 2 then [7] else [],
+    links := fun i => if i = 1 then { src := fun x => if x = 0 then [7] else [], tgt := fun x => if x = 7 then [0] else [] }
+                      else emptyLinks,
+    val := fun _ _ => none,
+    kindOf := fun x => if x = 7 then 2 else 0, count := 8 }
+example : Pyx.Query.KeysDistinct (Pyx.Query.linkEntriesFrom 0 0 wSub.sch) ∧
+    (∀ e ∈ Pyx.Query.linkEntriesFrom 0 0 wSub.sch, e.rel = "R3" → e.phrase = "") ∧ (∀ x ∈ wSub.pool 0, wSub.kindOf x = 0) := by
+  unfold Pyx.Query.KeysDistinct; decide
+example : checkSubtype wSub 0 "R3" = 1 ∧
+    (wSub.pool 0).countP (fun x => (Pyx.Query.linkEntriesFrom 0 0 wSub.sch).all
+      (fun e => !(e.rel == "R3") || (Pyx.Query.followEntry wSub.toState e x).isEmpty)) = 1 := by decide
 
 end PyxProps.C11
